@@ -254,6 +254,45 @@ def r2(k: Kit) -> None:
     rep.floor('C20.R2', 'forward listener constructors', m, 2)
 
 
+def backpressure_table(k: Kit, rule: str) -> None:
+    """SSHForwarder.pause_writing / resume_writing over every state."""
+    from ..absint import evaluate_total
+    rep = k.rep
+    idx = k.idx
+    for nm, tgt in (('pause_writing', 'pause_reading'),
+                    ('resume_writing', 'resume_reading')):
+        f = k.func(FW + nm)
+        body = [st for st in f.node.body if not (
+            isinstance(st, ast.Expr) and isinstance(st.value, ast.Constant))]
+        bad = None
+        n = 0
+        for peer in (None, 'PEER'):
+            try:
+                outs = evaluate_total(
+                    idx, f.module, body,
+                    {'self._peer': Obj('PEER') if peer else None}, {},
+                    lambda a, b, c: Obj('x'))
+            except NotEvaluable as exc:
+                rep.error(rule, key(f, 'not-evaluable'), str(exc))
+                return
+            for extra, o in outs:
+                n += 1
+                called = bool(o.called('self._peer.' + tgt))
+                if called != bool(peer) and bad is None:
+                    bad = (f'peer {"present" if peer else "absent"}'
+                           f'{", " + str(extra) if extra else ""}: '
+                           f'peer.{tgt}() '
+                           f'{"called" if called else "not called"}')
+        rep.check(bad is None, rule, key(f, 'back-pressure'),
+                  f'{nm} -> peer.{tgt} whenever there is a peer '
+                  f'({n} states, other fields quantified)',
+                  f'{nm}: {bad} - flow control of the two directions is '
+                  'independent: a side that has seen EOF from its own '
+                  'transport must still restart the peer, or a half-closed '
+                  'forwarded connection with a slow reader stalls for good',
+                  f.loc(f.node))
+
+
 def r3(k: Kit) -> None:
     rep = k.rep
     idx = k.idx
@@ -375,14 +414,7 @@ def r3(k: Kit) -> None:
     rep.check(bad is None, 'C20.R3', key(dr, 'data table'),
               'data goes to the peer, or is appended to the early buffer',
               f'forwarder data handling is wrong: {bad}', dr.loc(dr.node))
-    for nm, tgt in (('pause_writing', 'pause_reading'),
-                    ('resume_writing', 'resume_reading')):
-        f = k.func(FW + nm)
-        rep.check(any(is_call(c, tgt, 'self._peer')
-                      for c in walk_shallow(f.node)), 'C20.R3',
-                  key(f, 'back-pressure'), f'{nm} → peer.{tgt}',
-                  f'{nm} no longer propagates back-pressure',
-                  f.loc(f.node))
+    backpressure_table(k, 'C20.R3')
 
 
 def r4(k: Kit) -> None:
